@@ -1,6 +1,6 @@
 (* extraction of the C19 executable models; ExtrOcamlBasic only *)
 Require Extraction.
 Require Import ExtrOcamlBasic.
-Require Import Base JsonEscape Stats C19Record C19Concurrent.
+Require Import Base JsonEscape Stats C19Record C19Concurrent C19Session.
 Extraction Language OCaml.
-Extraction "../ocaml/gen/c19_model.ml" run_ser_str run_de_str run_utf8_dec run_render run_lines run_sessions run_summarize run_record_line run_log_summary run_bufwriter_lens run_concurrent.
+Extraction "../ocaml/gen/c19_model.ml" run_ser_str run_de_str run_utf8_dec run_render run_lines run_sessions run_summarize run_record_line run_log_summary run_bufwriter_lens run_concurrent run_ls_history_src.
